@@ -899,4 +899,90 @@ theorem tiled_roundtrip' (codec : Option Codec) (hcodec : ∀ c, codec = some c 
   obtain ⟨arr, ov, hcm⟩ := castMask_of_buildTiled codec R C tr tc hR hC htr htc t segs mfv omt m o hb
   exact tiled_roundtrip codec hcodec R C tr tc htr htc t segs mfv omt m arr ov hcm o hb
 
+/-! ## the assembled matrix -/
+
+theorem expectedPlane_length (t : SegType) (mfv j s : Nat) (pl : Plane) (e : List Nat)
+    (h : expectedPlane t mfv j s pl = some e) : e.length = pl.size := by
+  cases pl with
+  | intLabel px => simp only [expectedPlane, Option.some.injEq] at h; subst h; simp [Plane.size]
+  | fltLabel px =>
+    simp only [expectedPlane] at h
+    split at h <;> (simp only [Option.some.injEq] at h; subst h; simp [Plane.size])
+  | intStack px =>
+    simp only [expectedPlane] at h
+    cases ha : chanO j px with
+    | none => rw [ha] at h; cases h
+    | some a =>
+      rw [ha] at h
+      simp only [Option.map_some, Option.some.injEq] at h
+      subst h
+      simp [Plane.size, (mapO_spec _ px a ha).1]
+  | fltStack px =>
+    simp only [expectedPlane] at h
+    cases ha : chanO j px with
+    | none => rw [ha] at h; split at h <;> cases h
+    | some a =>
+      rw [ha] at h
+      split at h <;> (simp only [Option.map_some, Option.some.injEq] at h; subst h; simp [Plane.size, (mapO_spec _ px a ha).1])
+
+theorem plane_size_mem (m : Mask) (p : Nat) (pl : Plane) (h : m.plane? p = some pl) : pl.size ∈ m.planeSizes := by
+  cases m with
+  | intLabel ps =>
+    obtain ⟨px, hq, rfl⟩ := plane_intLabel ps p pl h
+    exact List.mem_map.mpr ⟨px, List.mem_of_getElem? hq, rfl⟩
+  | intStack ps =>
+    obtain ⟨px, hq, rfl⟩ := plane_intStack ps p pl h
+    exact List.mem_map.mpr ⟨px, List.mem_of_getElem? hq, rfl⟩
+  | fltLabel ps =>
+    obtain ⟨px, hq, rfl⟩ := plane_fltLabel ps p pl h
+    exact List.mem_map.mpr ⟨px, List.mem_of_getElem? hq, rfl⟩
+  | fltStack ps =>
+    obtain ⟨px, hq, rfl⟩ := plane_fltStack ps p pl h
+    exact List.mem_map.mpr ⟨px, List.mem_of_getElem? hq, rfl⟩
+
+/-- **the matrix put together from the tile frames is the expectation for the whole matrix** -/
+theorem tiled_assembled (codec : Option Codec) (hcodec : ∀ c, codec = some c → ∀ x, c.dec (c.enc x) = x)
+    (R C tr tc : Nat) (hR : 1 ≤ R) (hC : 1 ≤ C) (htr : 1 ≤ tr) (htc : 1 ≤ tc) (t : SegType) (segs : List Nat) (mfv : Nat)
+    (omt : Bool) (m : Mask) (o : SegObj) (hb : buildTiled codec R C tr tc t segs mfv omt m = .ok o) :
+    ∃ mpl out, m.plane? 0 = some mpl ∧
+      readBySource codec o (List.range (tilesAlong R tr * tilesAlong C tc)) .assertEmpty = .ok out ∧
+      ∀ j (hj : j < segs.length), ∃ e, expectedPlane t mfv j segs[j] mpl = some e ∧ e.length = R * C ∧
+        assembleTPM out R C tr tc j = e.map some := by
+  obtain ⟨mpl, out, hmpl, hout, hall⟩ := tiled_roundtrip' codec hcodec R C tr tc hR hC htr htc t segs mfv omt m o hb
+  have hsz : ∀ sz ∈ m.planeSizes, sz = R * C := by
+    unfold buildTiled at hb
+    split at hb
+    · cases hb
+    split at hb
+    · cases hb
+    rename_i hs
+    intro sz hm
+    by_contra hc
+    exact hs (List.any_eq_true.mpr ⟨sz, hm, by simpa using hc⟩)
+  refine ⟨mpl, out, hmpl, hout, ?_⟩
+  intro j hj
+  obtain ⟨e, he, hpix⟩ := hall j hj
+  have hlen : e.length = R * C := by
+    rw [expectedPlane_length t mfv j segs[j] mpl e he]
+    exact hsz _ (plane_size_mem m 0 mpl hmpl)
+  refine ⟨e, he, hlen, ?_⟩
+  apply List.ext_getElem?
+  intro i
+  by_cases hi : i < R * C
+  · have hCpos : 0 < C := by omega
+    have hr : i / C < R := by rw [Nat.div_lt_iff_lt_mul hCpos]; exact hi
+    have hc : i % C < C := Nat.mod_lt _ hCpos
+    have e1 : i / C * C + i % C = i := Nat.div_add_mod' i C
+    have h1 := getElem?_flatMap_range_map R C
+      (fun r c => ((out[(r / tr) * tilesAlong C tc + c / tc]?.bind (·[j]?)).bind (·[(r % tr) * tc + c % tc]?)))
+      (i / C) (i % C) hr hc
+    rw [e1] at h1
+    unfold assembleTPM
+    rw [h1, hpix (i / C) (i % C) hr hc, e1, List.getElem?_map]
+    have hi' : i < e.length := by omega
+    simp [List.getD_eq_getElem?_getD, List.getElem?_eq_getElem hi']
+  · have h1 : (assembleTPM out R C tr tc j).length = R * C := by
+      unfold assembleTPM; exact length_flatMap_range_map _ _ _
+    rw [List.getElem?_eq_none (by omega), List.getElem?_eq_none (by simp; omega)]
+
 end HdVerif.SegEncodeLemmas
